@@ -17,7 +17,8 @@ Representation
   being restored), `dfd` (the directory descriptor `check_symlinks_fsobj`
   walks with), `xfd` (the descriptor opened for a fix-up at close).
 * The process is privileged (the harness runs as root): permission bits never
-  make a call fail.  `PATH_MAX` is not modelled (`NAME_MAX` is).
+  make a call fail.  `NAME_MAX` and `PATH_MAX` are modelled; `rfd` is the descriptor
+  `edit_deep_directories` keeps on the starting directory (`a->restore_pwd`).
 Kernel path resolution (`walk`): symlinks are followed in every non-final
 component, at most `maxLinks` of them; `..` is physical; a trailing '/' makes
 the final component be followed and required to be a directory.
@@ -139,6 +140,8 @@ def compsOf (p : List Nat) : List Name := (splitSlash p).filter (fun c => !(c ==
 def DOTN : Name := [DOT]
 def DOTDOTN : Name := [DOT, DOT]
 def nameMax : Nat := 255
+/-- PATH_MAX: a pathname argument of this many bytes or more is refused with ENAMETOOLONG. -/
+def pathMax : Nat := 4096
 def maxLinks : Nat := 40
 
 /-! ### kernel path walk -/
@@ -180,7 +183,7 @@ inductive Loc
   | obj (pos : List Name)                   -- the path named an existing object by ".", ".." or a trailing '/'
   deriving DecidableEq, Repr
 
-def locate (fs : FS) (cwd : List Name) (p : List Nat) : Except Err Loc :=
+def locate0 (fs : FS) (cwd : List Name) (p : List Nat) : Except Err Loc :=
   if p = [] then .error .ENOENT else
   let start := if isAbs p then [] else cwd
   let comps := compsOf p
@@ -204,6 +207,10 @@ def locate (fs : FS) (cwd : List Name) (p : List Nat) : Except Err Loc :=
         | some (.file _) => .error .ENOTDIR
         | none => .error .ENOENT
 
+/-- `locate0` behind the PATH_MAX test every pathname argument goes through first. -/
+def locate (fs : FS) (cwd : List Name) (p : List Nat) : Except Err Loc :=
+  if p.length ≥ pathMax then .error .ENAMETOOLONG else locate0 fs cwd p
+
 /-- The object a path names, without following a final symlink (`lstat`). -/
 def lookupNoFollow (fs : FS) (cwd : List Name) (p : List Nat) : Except Err (List Name × Tree) :=
   match locate fs cwd p with
@@ -216,13 +223,16 @@ def lookupNoFollow (fs : FS) (cwd : List Name) (p : List Nat) : Except Err (List
     | none => .error .ENOENT
 
 /-- The object a path names, following a final symlink (`stat`). -/
-def lookupFollow (fs : FS) (cwd : List Name) (p : List Nat) : Except Err (List Name × Tree) :=
+def lookupFollow0 (fs : FS) (cwd : List Name) (p : List Nat) : Except Err (List Name × Tree) :=
   if p = [] then .error .ENOENT else
   match walk fs maxLinks (if isAbs p then [] else cwd) (compsOf p) with
   | .error e => .error e
   | .ok pos => match get fs.root pos with
     | some t => if trailingSlash p && !t.isDir then .error .ENOTDIR else .ok (pos, t)
     | none => .error .ENOENT
+
+def lookupFollow (fs : FS) (cwd : List Name) (p : List Nat) : Except Err (List Name × Tree) :=
+  if p.length ≥ pathMax then .error .ENAMETOOLONG else lookupFollow0 fs cwd p
 
 /-! ### primitive mutations -/
 
@@ -285,6 +295,7 @@ structure Proc where
   fd : Option Nat := none          -- `a->fd`: an open regular file (by inode)
   dfd : Option (List Name) := none -- `chdir_fd` of check_symlinks_fsobj
   xfd : Option Handle := none      -- descriptor opened for a fix-up at close
+  rfd : Option (List Name) := none -- `a->restore_pwd` of edit_deep_directories
 
 /-- System calls issued by the disk writer.  Path arguments are C strings
 relative to the working directory unless absolute. -/
@@ -322,6 +333,10 @@ inductive Sys
   | xUtimens (t : Int)
   | xClose
   | getUmask
+  | chdir (p : List Nat)
+  | rOpenCwd                                     -- restore_pwd = open(".")
+  | rFchdir                                      -- fchdir(restore_pwd)
+  | rClose
   deriving DecidableEq, Repr
 
 /-- What a call returns to the program. -/
@@ -543,5 +558,16 @@ def exec (s : Sys) (pr : Proc) : R × Proc :=
       | .error e => fail pr e
   | .xClose => (.ok, { pr with xfd := none })
   | .getUmask => (.num pr.umask, pr)
+  | .chdir p =>
+    match lookupFollow fs pr.cwd p with
+    | .error e => fail pr e
+    | .ok (pos, .dir ..) => (.ok, { pr with cwd := pos })
+    | .ok (_, .file _) => fail pr .ENOTDIR
+  | .rOpenCwd => (.ok, { pr with rfd := some pr.cwd })
+  | .rFchdir =>
+    match pr.rfd with
+    | none => fail pr .EBADF
+    | some d => (.ok, { pr with cwd := d })
+  | .rClose => (.ok, { pr with rfd := none })
 
 end LA.FS
